@@ -19,7 +19,12 @@ def def_program(draw):
         for k in range(draw(st.integers(2, 4))):
             if kw == "class" and draw(st.integers(0, 4)) == 0:
                 items.append({"vis": draw(st.sampled_from(["private", "protected", "public"]))})
-            items.append({"form": draw(st.sampled_from(["plain", "plain", "self", "endless", "multi", "sing"])), "name": "%s_m%d" % (c.lower(), k)})
+            form = draw(st.sampled_from(["plain", "plain", "self", "endless", "multi", "sing"]))
+            it = {"form": form, "name": "%s_m%d" % (c.lower(), k)}
+            if form == "sing" and draw(st.integers(0, 2)) == 0:
+                # a visibility keyword *inside* the singleton body does apply to the class-side definition
+                it["inner_vis"] = draw(st.sampled_from(["private", "public"]))
+            items.append(it)
         classes.append({"kw": kw, "name": c, "items": items})
     return {"classes": classes}
 
@@ -51,7 +56,10 @@ def render(case):
                 lines += ["  def %s(a," % name, "      b = 1)", "    a", "  end"]
             else:
                 lines.append("  class << self")
-                defs.append((len(lines) + 1, "c", "public", cn, name, form))
+                iv = it.get("inner_vis")
+                if iv:
+                    lines.append("    " + iv)
+                defs.append((len(lines) + 1, "c", iv or "public", cn, name, form))
                 lines += ["    def %s(a)" % name, "      a", "    end", "  end"]
         lines.append("end")
     insts = {}
@@ -64,7 +72,7 @@ def render(case):
         if kind == "i" and cn in insts and vis == "public":
             calls.append((len(lines) + 1, cn, name, "i"))
             lines.append("%s.%s(1)" % (insts[cn], name))
-        elif kind == "c":
+        elif kind == "c" and vis == "public":
             calls.append((len(lines) + 1, cn, name, "c"))
             lines.append("%s.%s(1)" % (cn, name))
     return "\n".join(lines) + "\n", defs, calls
@@ -76,7 +84,7 @@ class Check(Prop):
             "multi-line signature or inside `class << self`, under public/private/protected sections, followed by one call row per "
             "callable method (instance calls on K.new, class calls on K). Oracle (Ruby model): (1) `-i` prints on the def row a signature "
             "hint tagged [i/<visibility in effect>] for instance methods and [c/public] for class-side methods (a bare visibility keyword "
-            "only affects later instance methods); (2) `--define --row=<call row>` contains the record %<frame>:::<class>:::<method>:::"
+            "of the class body only affects later instance methods; a keyword written inside `class << self` applies to the singleton definitions); (2) `--define --row=<call row>` contains the record %<frame>:::<class>:::<method>:::"
             "<file>:::<def row>; (3) `--hover --row=<call row>` prints a %<method>::: line whose detail names Class.method. Non-trivial = "
             ">= 1 definition under a non-public section or a class-side/endless/multi-line definition; distinct by SHA-1(program).")
     ASSUMPTIONS = (
